@@ -22,7 +22,7 @@ RULE = ("Hypothesis: calendars with VEVENT/VTODO/VJOURNAL/VFREEBUSY and nested V
         "with that TZID, unknown ids are still missing, repeating the call changes neither the component count nor the bytes. "
         "Non-trivial: >= 2 distinct used ids and >= 1 pre-existing VTIMEZONE; distinct by hash.")
 ASSUMPTIONS = ["'known to the provider' is decided by tzp.timezone(id) is not None", "pre-existing VTIMEZONEs have pairwise different TZIDs"]
-REQUIRED_CLASSES = ["pre:unused", "pre:no-tzid", "pre:used", "unknown-id", "multi-valued", "nested-alarm", "path:parsed", "path:api", "calls>=2"]
+REQUIRED_CLASSES = ["pre:unused", "pre:no-tzid", "pre:used", "unknown-id", "multi-valued", "nested-alarm", "path:parsed", "path:api", "calls>=2", "edited-after-first-query"]
 
 KNOWN = V.ZONES + ["Europe/London", "Asia/Tokyo"]
 UNKNOWN = ["Custom/Nowhere", "My-Own-Zone"]
@@ -102,6 +102,38 @@ def judge(case):
     except Exception as e:
         fails.append(Failure("C18.queries-never-fail", "get_missing_tzids-raises/" + exc_signature(e), f"{e!r} present={present!r}"[:300]))
         return fails
+    # ---- history: the calendar is edited after it was queried (no component added or removed); the answers follow the tree
+    if case.get("edits"):
+        try:
+            comps = [c for c in cal.walk() if c.name in ("VEVENT", "VTODO", "VJOURNAL")]
+            for ed in case["edits"]:
+                if not comps:
+                    break
+                c = comps[ed["node"] % len(comps)]
+                if ed["op"] == "set":
+                    c.pop("DTSTART", None)
+                    c.add("DTSTART", V.dec({"k": "zoned", "v": ed["v"], "tz": ed["tz"]}, provider))
+                elif ed["op"] == "exdate":
+                    c.add("EXDATE", V.dec({"k": "zoned", "v": ed["v"], "tz": ed["tz"]}, provider))
+                elif ed["op"] == "param":
+                    c.add("COMMENT", "edited", parameters={"TZID": ed["tz"]})
+                else:
+                    for nm in ("DTSTART", "DTEND", "DUE", "RDATE", "EXDATE", "RECURRENCE-ID"):
+                        c.pop(nm, None)
+        except Exception as e:
+            return fails + [Failure("C18.build", "edit-raises/" + exc_signature(e), repr(e)[:300])]
+        want_used = own_used(cal)
+        want_missing = want_used - set(present)
+        try:
+            used = cal.get_used_tzids()
+            if set(used) != want_used:
+                fails.append(Failure("C18.used", "used-set-differs-after-edit", f"got {sorted(used)!r} want {sorted(want_used)!r} edits={case['edits']!r}"[:400]))
+            missing = cal.get_missing_tzids()
+            if set(missing) != want_missing:
+                fails.append(Failure("C18.missing", "missing-set-differs-after-edit", f"got {sorted(missing)!r} want {sorted(want_missing)!r}"[:400]))
+        except Exception as e:
+            fails.append(Failure("C18.queries-never-fail", "query-raises-after-edit/" + exc_signature(e), repr(e)[:200]))
+            return fails
     # closure
     snapshots = []
     try:
@@ -154,6 +186,8 @@ def info(case):
         classes.append("nested-alarm")
     if case["calls"] >= 2:
         classes.append("calls>=2")
+    if case.get("edits"):
+        classes.append("edited-after-first-query")
     return {"nontrivial": len(ids) >= 2 and len(case["pre"]) >= 1, "classes": sorted(set(classes))}
 
 
@@ -225,7 +259,10 @@ def cases(draw):
             pre.append({"kind": "stub", "tzid": draw(st.sampled_from(UNKNOWN + ["Unused/Stub"]))})
         elif k == "none":
             pre.append({"kind": "none"})
-    return {"provider": draw(st.sampled_from(["zoneinfo", "pytz"])), "path": path, "tree": tree, "pre": pre, "calls": draw(st.integers(1, 3))}
+    edits = draw(st.lists(st.fixed_dictionaries({"node": st.integers(0, 5), "op": st.sampled_from(["set", "set", "exdate", "param", "drop"]),
+                                                  "v": _wall, "tz": st.sampled_from(KNOWN + UNKNOWN[:1])}), max_size=3))
+    edits = [dict(e, tz=e["tz"] if e["op"] == "param" or e["tz"] in KNOWN else KNOWN[0]) for e in edits]
+    return {"provider": draw(st.sampled_from(["zoneinfo", "pytz"])), "path": path, "tree": tree, "pre": pre, "calls": draw(st.integers(1, 3)), "edits": edits}
 
 
 def streams(tier):
